@@ -151,6 +151,16 @@ def run():
             chk.report("c05:deep:crash", "deep recursion harness ended with status %d after %d of %d depths (crash instead of an error object)" % (p.returncode, len(lines), len(depths)),
                        "deep_crash.json", {"rc": p.returncode, "events": lines[-3:], "stderr": p.stderr.decode()[-500:]})
         else:
+            # the same depths in a context whose heap is limited (the stack cannot always be grown): value or error object, no crash
+            for hl in (["H2097152:8388608", "H2097152:16777216"] if not chk.thorough else ["H2097152:4194304", "H2097152:8388608", "H2097152:16777216", "H4194304:33554432"]):
+                p2 = subprocess.run([exe, hl] + [str(d) for d in depths], env=build.env(), cwd=vlib.REPO, stdout=subprocess.PIPE, stderr=subprocess.PIPE, timeout=900)
+                l2 = [l for l in p2.stdout.decode().splitlines() if l.startswith("{")]
+                if p2.returncode != 0 or len(l2) < len(depths):
+                    chk.report("c05:deep:crash:heap-limit", "deep recursion harness with heap limit %s ended with status %d after %d of %d depths (crash instead of an error object)" % (hl[1:], p2.returncode, len(l2), len(depths)),
+                               "deep_crash_limited.json", {"rc": p2.returncode, "heap": hl, "events": l2[-3:], "stderr": p2.stderr.decode()[-500:]})
+                    break
+                lines += ['{"e":"Reset"}'] + l2
+            open(tpath, "w").write("\n".join(lines) + "\n")
             r = vlib.run_tlc("Stack.tla", "Stack.cfg", sc.path, env={"TRACE": tpath}, workers=1, timeout=120)
             if r.error and "Postcondition" not in r.error:
                 raise Broken("Stack.tla failed: %s" % r.error[:1000])
